@@ -1,4 +1,5 @@
 import F3.Proofs.InstanceDecision
+import F3.Proofs.ParticipantInv
 import F3.Props.C08
 /-!
 # C03 — every reported decision is a self-contained, verifiable finality proof (model part)
@@ -95,5 +96,68 @@ example : OpsValid exTbl exOps := by
   intro op hop
   simp only [exOps, List.mem_cons, List.mem_nil_iff, or_false] at hop
   rcases hop with rfl | rfl | rfl <;> simp [MsgOk, exTbl, Table.power]
+
+/-! ## The same at the participant API (`gpbft/participant.go`)
+
+`pstepWith order` is `Participant.ReceiveMessage` / `ReceiveAlarm` for the current instance (what the
+correspondence driver replays): deliveries before the instance has begun are queued and drained through
+`instance.ReceiveMany` by the first alarm, in the sender order `order` (any order is possible in Go). -/
+section ParticipantAPI
+
+/-- `x` sent a validated DECIDE vote for `c` somewhere in the call sequence — delivered to the running instance,
+or queued before it began and drained at its start -/
+def DecideVotedP (ops : List POp) (x : Pid) (c : Chain) : Prop :=
+  ∃ now m, POp.recv now m ∈ ops ∧ m.phase = .decide ∧ m.sender = x ∧ m.value = c
+
+/-- the calls deliver validated messages: DECIDE is for round 0 and senders have positive scaled power -/
+def POpsValid (tbl : Table) (ops : List POp) : Prop :=
+  ∀ op ∈ ops, match op with
+    | .recv _ m => MsgOk m ∧ 0 < tbl.power m.sender
+    | _ => True
+
+theorem popsValid_popValid (tbl : Table) (ops : List POp) (h : POpsValid tbl ops) :
+    ∀ op ∈ ops, POpValid (DecideVotedP ops) tbl op := by
+  intro op hop
+  have := h op hop
+  cases op with
+  | recv now m => exact ⟨this.1, this.2, fun hph => ⟨now, m, hop, hph, rfl, rfl⟩⟩
+  | alarm _ => trivial
+
+/-- **Decision well-formedness at the participant API**, for every configuration, table, input, drain order and
+sequence of `ReceiveMessage` / `ReceiveAlarm` calls (no no-failure hypothesis): the decision reported is for round
+0 of DECIDE, lists strictly increasing in-range signer indices of positive scaled power forming a strong quorum,
+and every listed signer is a member from whom a DECIDE vote for exactly the decided value was delivered — to the
+running instance, or before it began (queued, then drained through `ReceiveMany`). -/
+theorem decision_wellformed_participant (cfg : Cfg) (tbl : Table) (input : Chain) (order : List Pid)
+    (ops : List POp) (hops : POpsValid tbl ops) (d : Just)
+    (hd : (prun order (pinit cfg tbl input) ops).1.inst.termination = some d) :
+    DecisionOK (DecideVotedP ops) tbl d := by
+  obtain ⟨h, ht⟩ := prun_decinv (V := DecideVotedP ops) order (pinit cfg tbl input) ops (DecInv_init cfg tbl input)
+    (by simp [pinit]) (popsValid_popValid tbl ops hops)
+  have := h.2 d hd
+  rw [ht] at this
+  exact this
+
+/-- Non-vacuity: both DECIDE votes (and a message on another base, a late-binding reject) arrive before the
+instance begins; the first alarm begins it, drains the queue — dropping the reject — and the instance terminates
+with signers [0, 1]. -/
+def exPOps : List POp :=
+  [.recv 1 { sender := 2, round := 0, phase := .decide, value := [7, 8],
+             just := some { round := 0, phase := .commit, value := [7, 8], signers := [0, 1] } },
+   .recv 2 { sender := 3, round := 0, phase := .prepare, value := [9, 9] },
+   .recv 3 { sender := 1, round := 0, phase := .decide, value := [7, 8],
+             just := some { round := 0, phase := .commit, value := [7, 8], signers := [0, 1] } },
+   .alarm 4]
+
+example : (prun [3, 1, 2] (pinit exCfg exTbl [7, 8]) (exPOps.take 3)).1.queue.length = 3 ∧
+    (prun [3, 1, 2] (pinit exCfg exTbl [7, 8]) exPOps).1.inst.termination =
+      some { round := 0, phase := .decide, value := [7, 8], signers := [0, 1] } := by decide
+
+example : POpsValid exTbl exPOps := by
+  intro op hop
+  simp only [exPOps, List.mem_cons, List.mem_nil_iff, or_false] at hop
+  rcases hop with rfl | rfl | rfl | rfl <;> simp [MsgOk, exTbl, Table.power]
+
+end ParticipantAPI
 
 end F3.Props.C03
